@@ -83,7 +83,8 @@ func runShard(o DriverOpts, p *Prop, work string, shard, nshards int, race bool,
 		bin = o.RaceBin
 		sr.raceLog = filepath.Join(work, tag+".race")
 	}
-	for attempt := 0; attempt < 12; attempt++ {
+	const maxDeaths = 5
+	for attempt := 0; attempt < maxDeaths; attempt++ {
 		_ = os.Remove(out)
 		args := []string{"worker", "--prop", p.ID, "--tier", o.Tier.String(), "--seed", strconv.FormatUint(o.Seed, 10),
 			"--shard", strconv.Itoa(shard), "--nshards", strconv.Itoa(nshards), "--out", out, "--progress", prog}
@@ -155,7 +156,7 @@ func runShard(o DriverOpts, p *Prop, work string, shard, nshards int, race bool,
 		skip = append(skip, key)
 		sr.res = nil
 	}
-	sr.inconcl = fmt.Sprintf("worker shard %d died more than 12 times", shard)
+	sr.inconcl = fmt.Sprintf("worker shard %d died more than %d times", shard, maxDeaths)
 	return sr
 }
 
@@ -367,13 +368,23 @@ func RunDriver(o DriverOpts) int {
 	// merge
 	total := newResult(p.ID, -1)
 	var inconclusive []string
+	confirmedFatal := map[string]int{}
 	for _, sr := range runs {
 		if sr.inconcl != "" {
 			inconclusive = append(inconclusive, sr.inconcl)
 		}
 		for _, key := range sr.dead {
-			died, outp := soloRerun(o, p, work, key, sr.race)
 			i := strings.LastIndexByte(key, ':')
+			if confirmedFatal[key[:i]] >= 2 {
+				// this stage already has two cases that kill a fresh process on their own: the tree is decided, and
+				// every further solo run may cost minutes (gigabyte allocations)
+				total.Counters["dead_cases_not_rerun_alone"]++
+				continue
+			}
+			died, outp := soloRerun(o, p, work, key, sr.race)
+			if died {
+				confirmedFatal[key[:i]]++
+			}
 			idx, _ := strconv.ParseUint(key[i+1:], 10, 64)
 			if died {
 				sig := "fatal:" + key[:i] + ":" + fatalKind(outp)
